@@ -262,6 +262,9 @@ func firstWords(s string) string {
 }
 
 // corpus: valid events produced by the real encoder (binary build) for a spread of programs.
+// corpusPanics: valid single events on which the decoder panicked (input hex, panic text).
+var corpusPanics [][2]string
+
 func corpus(max int) [][]byte {
 	alpha := seqx.BuildAlphabet()
 	var out [][]byte
@@ -276,7 +279,13 @@ func corpus(max int) [][]byte {
 		}
 		// values the bundled decoder does not accept at all (nil IP / 8-byte MAC: tag 260 of an unexpected
 		// length) are outside what the statement calls a valid binary log stream
-		if d := decodeMany(o.Lines[0]); d.err != nil || d.panic != "" {
+		d := decodeMany(o.Lines[0])
+		if d.panic != "" {
+			// "never panics with a runtime error" holds for every input, valid events first of all
+			corpusPanics = append(corpusPanics, [2]string{fmt.Sprintf("%x", o.Lines[0]), d.panic})
+			return
+		}
+		if d.err != nil {
 			return
 		}
 		if !seen[string(o.Lines[0])] && len(o.Lines[0]) < 400 {
@@ -288,6 +297,21 @@ func corpus(max int) [][]byte {
 		add(seqx.Program{Entry: seqx.Entry{Kind: "Info"}, Fields: []seqx.Field{seqx.Rekey(a, 0)}, Final: seqx.Final{Kind: "Msg", Text: "m"}})
 		if len(out) >= max {
 			break
+		}
+	}
+	// every length of a byte / text string around the decoder's fixed-size scratch buffers and the CBOR
+	// length-width boundaries (a wave-17 change broke exactly 32-byte Hex values)
+	for n := 0; n <= 80; n++ {
+		b := make([]byte, n)
+		for i := range b {
+			b[i] = byte('a' + i%26)
+		}
+		for _, m := range []string{"Hex", "Bytes", "Str"} {
+			var v interface{} = b
+			if m == "Str" {
+				v = string(b)
+			}
+			add(seqx.Program{Entry: seqx.Entry{Kind: "Log"}, Fields: []seqx.Field{{M: m, Key: "k", Val: v}}, Final: seqx.Final{Kind: "Send"}})
 		}
 	}
 	for i, a := range alpha.Structural {
@@ -379,6 +403,9 @@ func main() {
 			maxCorpus = 2000
 		}
 		cp := corpus(maxCorpus)
+		for _, cpn := range corpusPanics {
+			c.r.Violation("", "valid-event-panics", fmt.Sprintf("the decoder panics on one valid event written by the encoder: %s (event %s)", cpn[1], clip([]byte(cpn[0]))), cpn[0])
+		}
 		r.Count("corpus_events", int64(len(cp))/int64(n))
 		checkPrefixes := func(stream []byte, bounds []int) {
 			full := decodeMany(stream)
